@@ -51,7 +51,11 @@ def build(H, tier, seed):
 
 
 def standins(tier, seed):
-    return K.symcoef_jobs('C03', OPS + ['gp'], tier, seed, extra_configs=K.CUSTOM)
+    # the named product methods with a plain number as the other operand (seeded change C03n: x.lc(number) rescaled x)
+    nm = [{'name': 'number-operand', 'bound': 'full and seeded key patterns x 4 plain numbers (int, float, Fraction) x every product x method form and both algebra-level operand orders, against the product with the scalar multivector',
+           'job': {'kind': 'number_methods', 'module': 'standins.jobs7', 'ops': OPS + ['gp'], 'seed': seed,
+                   'configs': [dict(p=3, random=3), dict(p=1, q=1, r=1, random=3)] if tier == 'quick' else [dict(p=3, random=8), dict(p=1, q=1, r=1, random=8), dict(p=2, q=2, random=4), dict(name='3DPGA', random=4)]}}]
+    return nm + K.symcoef_jobs('C03', OPS + ['gp'], tier, seed, extra_configs=K.CUSTOM)
 
 
 replay = K.replay_any
